@@ -253,8 +253,14 @@ def gen_case(rng: random.Random, thorough: bool) -> dict:
             if big_budget <= 0:
                 size = rng.randint(0, 3000)
             big_budget -= 1
-        return [size, rng.randrange(1 << 30), rng.choice(ARCH)]
+        if prior and rng.random() < 0.25:
+            size, dseed = rng.choice(prior)  # byte-identical content (same length, same CRC) under another name / again
+        else:
+            dseed = rng.randrange(1 << 30)
+            prior.append((size, dseed))
+        return [size, dseed, rng.choice(ARCH)]
 
+    prior: List[tuple] = []
     while len(ops) < n_ops:
         r = rng.random()
         form = rng.randrange(3)
@@ -314,6 +320,10 @@ def name_forms(ident: List[str]) -> List[Any]:
 
 
 def make_data(size: int, dseed: int) -> bytes:
+    if dseed % 11 == 0:
+        return b'\x00' * size  # runs of one byte value: nothing distinguishes one offset from another
+    if dseed % 11 == 1:
+        return b'\xff' * size  # 0xFFFF is the directory's preload terminator
     return random.Random(dseed).randbytes(size)
 
 
